@@ -104,3 +104,31 @@ def show_untracked_files_no_hides_agent_created_file():
         return s.kinds()
     finally:
         s.destroy()
+
+
+def clone_with_dash_C_option_gets_the_notes():
+    """D81 (fixed): `git -C <dir> clone <url> <name>` through the proxy: the post-clone step looked for <name> under the process's
+    working directory instead of under <dir>, fetched no authorship notes, and `git-ai blame` in the fresh clone reported the agent's
+    lines as a person's - while the same clone started from <dir> itself had them."""
+    import json
+    import os
+    from ..props import c10
+    net = c10.Net("WC12c", 1, 1)
+    try:
+        net.step(0, "commit"); net.step(0, "push")
+        w = net.w
+        w.git("checkout", "-q", "c0", cwd=net.clones[0], plain=True)
+        res = {}
+        for variant, argv, cwd in (("from-dir", ["clone", "-q", "-b", "c0", net.remote, "k1"], w.root),
+                                   ("dash-C", ["-C", w.root, "clone", "-q", "-b", "c0", net.remote, "k2"], "/")):
+            w.git(*argv, cwd=cwd)
+            path = os.path.join(w.root, "k1" if variant == "from-dir" else "k2")
+            p = w.ga("blame", "--json", "f0.txt", cwd=path)
+            try:
+                res[variant] = sorted(json.loads(p.stdout).get("lines", {}).items())
+            except ValueError:
+                res[variant] = "blame failed: " + p.stderr[-100:]
+        kinds = [] if res["from-dir"] == res["dash-C"] and res["from-dir"] else ["C12/blame-differs@clone-dash-C"]
+        return kinds, res
+    finally:
+        net.destroy()
